@@ -96,6 +96,14 @@ func (d *structDecoder) tryOptimize() {
 	fieldMap := map[string]*structFieldSet{}
 	conflicted := map[string]struct{}{}
 	for k, v := range d.fieldMap {
+		for i := 0; i < len(k); i++ {
+			if k[i] >= 0x80 {
+				// the bitmaps fold ASCII letters only: a name with other letters
+				// ("é", matched by the key "É") needs the map lookup
+				d.isTriedOptimize = true
+				return
+			}
+		}
 		key := strings.ToLower(k)
 		if key != k {
 			if key != toASCIILower(k) {
